@@ -14,6 +14,9 @@ from pathlib import Path
 from . import build, findings
 
 VERIF = Path(__file__).resolve().parent.parent
+# evidence/ and replays/ live in /verif; runs against scratch copies of the repository (seeded changes, mutants)
+# set VF_OUT_DIR so that they do not overwrite the evidence of the real tree
+OUT = Path(os.environ.get("VF_OUT_DIR") or VERIF)
 PY = "/venv/bin/python"
 NCPU = min(16, os.cpu_count() or 4)
 
@@ -170,7 +173,7 @@ def parse_sanitizer(blob):
 
 
 def save_replay(prop, w):
-    d = VERIF / "replays" / prop
+    d = OUT / "replays" / prop
     d.mkdir(parents=True, exist_ok=True)
     blob = json.dumps(w, sort_keys=True, default=str)
     name = hashlib.sha256(blob.encode()).hexdigest()[:16] + ".json"
@@ -261,20 +264,20 @@ def finish(plan, tier, seed, t0, results, extra_cov=None, extra_viol=None, incon
         cov.update(extra_cov)
     ev = dict(property_id=prop, tier=tier, seed=int(seed), level=plan.level, coverage=cov,
               assumptions=list(plan.assumptions), wall_s=round(wall, 2), violations=len(new))
-    (VERIF / "evidence").mkdir(exist_ok=True)
-    (VERIF / "evidence" / (prop + ".json")).write_text(json.dumps(ev, indent=1, sort_keys=True, default=str))
+    (OUT / "evidence").mkdir(parents=True, exist_ok=True)
+    (OUT / "evidence" / (prop + ".json")).write_text(json.dumps(ev, indent=1, sort_keys=True, default=str))
     print("[%s %s seed=%s] evaluations=%d distinct_nontrivial=%d workers=%d wall=%.1fs" % (
         prop, tier, seed, evaluations, len(nontrivial), len(results), wall))
     for k in sorted(counters):
         print("   %-44s %d" % (k, counters[k]))
     for kid, (k, n) in sorted(hits.items()):
         print("KNOWN-FINDING: property=%s %s [%s, %d witnesses this run]" % (k["property"], k["what"], kid, n))
-    lastf = VERIF / "replays" / (prop + "-last.json")
+    lastf = OUT / "replays" / (prop + "-last.json")
     if not new and lastf.exists():
         lastf.unlink()
     if new:
-        (VERIF / "replays").mkdir(exist_ok=True)
-        (VERIF / "replays" / (prop + "-last.json")).write_text(json.dumps(new, indent=0, default=str))
+        (OUT / "replays").mkdir(parents=True, exist_ok=True)
+        (OUT / "replays" / (prop + "-last.json")).write_text(json.dumps(new, indent=0, default=str))
         seen = set()
         for w in new:
             key = (w.get("kind"), w.get("fn"))
